@@ -10,7 +10,7 @@ EnvN(k, d) == IF k \in DOMAIN IOEnv THEN atoi(IOEnv[k]) ELSE d
 
 (* a, tab, wide CJK, combining acute (zero width), ZWNJ (placeholder, right-to-left), alef, beh (right-to-left letters),
    space, hyphen (neutrals), digit, e-acute (no class), fatha (diacritic with placeholder), tatweel *)
-Alpha == <<97, 9, 28450, 769, 8204, 1575, 1576, 32, 45, 48, 233, 1614, 1600>>
+Alpha == <<97, 9, 28450, 769, 8204, 1575, 1576, 32, 45, 48, 233, 1614, 1600>> \o (IF DwBellRep > 0 THEN <<DwBellRep>> ELSE <<>>)    \* + wide and unprintable
 MarkAlpha == Alpha \o <<36, 92, 123, 125, 91, 93, 42>>          \* with the characters of the direction marks
 Mode == Env("MODE", "lines")
 AlphaM == IF Mode = "marks" THEN MarkAlpha ELSE Alpha
